@@ -280,3 +280,23 @@ pub fn agree_on(a: &Rec, spec: &Rec, sel: fn(&Evt) -> bool) -> bool {
     while i < spec.n as usize && i < CAP { if sel(&spec.ev[i]) { return false; } i += 1; }
     true
 }
+
+/// hand-over events that directly follow a user-function report (a conversion error being handed to the container's
+/// error type): same position, same location in both logs, up to the first stop
+pub fn agree_on_fn_handover(a: &Rec, spec: &Rec) -> bool {
+    if a.n > 0 && a.ev[0].stop() { return true; }
+    let mut i = 1;
+    while i < a.n as usize && i < CAP {
+        let x = a.ev[i];
+        let sel_a = x.kind() == K_HANDOVER && is_user_fn_ev(&a.ev[i - 1]);
+        if i < spec.n as usize {
+            let y = spec.ev[i];
+            let sel_s = y.kind() == K_HANDOVER && is_user_fn_ev(&spec.ev[i - 1]);
+            if (sel_a || sel_s) && x.unstopped() != y.unstopped() { return false; }
+        } else if sel_a { return false; }
+        if x.stop() { return true; }
+        i += 1;
+    }
+    while i < spec.n as usize && i < CAP { if i > 0 && spec.ev[i].kind() == K_HANDOVER && is_user_fn_ev(&spec.ev[i - 1]) { return false; } i += 1; }
+    true
+}
